@@ -42,7 +42,7 @@ func init() {
 		Rule: "case = sketch reached by a seeded history (both variants, all 5 store kinds, both signs), (40% with live companions: copies that stay in use, are reweighted on their own and merged with the sketch), then Reweight(w) for dyadic-budgeted w in {a*2^k}: <1, =1, >1; oracle: every bin, the zero bucket and the count equal the model scaled by w exactly, exact sum within the bound, exact min/max bitwise unchanged, and the whole observation equals that of a second real sketch built by adding the same items with weights*w - right after the call and again after both absorbed the same few further additions; " +
 			"the hook shows paginated stores holding both buffered and paged indexes at the time of the call. Non-trivial = both sides non-empty and w != 1; distinct = hash of the history and w.",
 		Cases:     core.Scale(80000, 2000000),
-		Mandatory: []string{"oracle.reweight_checks", "oracle.rebuilt_twin_checks", "reweight.lt1", "reweight.gt1", "reweight.eq1", "reweight.near_one", "layout.reweight_with_buffer_and_pages", "reweight.both_sides", "histories_with_live_companions", "oracle.companion_checks", "event.ChangeMapping", "oracle.continued_after_reweight"},
+		Mandatory: []string{"oracle.reweight_checks", "oracle.rebuilt_twin_checks", "reweight.lt1", "reweight.gt1", "reweight.eq1", "reweight.near_one", "layout.reweight_with_buffer_and_pages", "reweight.both_sides", "histories_with_live_companions", "oracle.companion_checks", "event.ChangeMapping", "oracle.continued_after_reweight", "reweight.after_a_refused_reweight", "reweight.sum_leaves_float64_range"},
 		Run:       runC16,
 	})
 }
@@ -115,6 +115,14 @@ func checkExactStats(c *core.Ctx, st *skState) {
 	}
 	if st.mdl.PeakAbs > math.MaxFloat64/1024 {
 		c.Count("oracle.sum_checks.skipped_overflow", 1)
+		// beyond the float64 range nothing is "a few ulps", but same-signed data whose exact sum is out of range
+		// has only one answer that is accurate to rounding: the infinity of that sign (never NaN, never finite)
+		if es.n > 0 && (es.min >= 0 || es.max <= 0) && math.IsInf(es.sum, 0) {
+			c.Count("oracle.sum_checks.overflowed_same_sign", 1)
+			if got != es.sum {
+				c.Failf("exact.sum.overflow", "GetSum()=%v, the exact sum of %d same-signed items is beyond the float64 range (%v expected)", got, es.n, es.sum)
+			}
+		}
 	} else if !(math.Abs(got-es.sum) <= bound) {
 		c.Failf("exact.sum", "GetSum()=%v, exact %v: |diff| %g > bound %g (%d items, %v lossy events)", got, es.sum, math.Abs(got-es.sum), bound, es.n, L)
 	}
@@ -786,11 +794,45 @@ func runC16(c *core.Ctx) {
 	if (lp.Kind == "paginated" && lp.BufferLen > 0 && lp.AllocatedPages > 0) || (ln.Kind == "paginated" && ln.BufferLen > 0 && ln.AllocatedPages > 0) {
 		c.Count("layout.reweight_with_buffer_and_pages", 1)
 	}
+	if exact && spec.Kind == gen.SSparse && f > 1 && r.P(0.3) && !st.mdl.EverFolded() {
+		// an exact sum that leaves the float64 range at the reweighting: one more item of the sign the sketch already
+		// has (or any, when it is empty) close to the largest indexable value
+		es := statsOf(st.mdl.Items)
+		if es.n == 0 || es.min >= 0 || es.max <= 0 {
+			v := m.Max / 3
+			if v > math.MaxFloat64/3 {
+				v = math.MaxFloat64 / 3
+			}
+			if es.n > 0 && es.max <= 0 && es.min < 0 {
+				v = -v
+			}
+			if h.budget.Charge(4) && st.apply(skOp{kind: opAddW, v: v, w: 2}) {
+				c.Count("reweight.sum_leaves_float64_range", 1)
+			}
+			if c.Failed() {
+				return
+			}
+		}
+	}
+	if r.P(0.3) {
+		// a refused call right before: it changes nothing, and the reweighting that follows starts from the same state
+		var rerr error
+		bad := []float64{0, -1, -0.5, math.Inf(-1)}[r.Intn(4)]
+		if c.Guard("Reweight(refused)", func() { rerr = st.s.I().Reweight(bad) }) {
+			return
+		}
+		c.Count("reweight.after_a_refused_reweight", 1)
+		if rerr == nil {
+			c.Failf("reweight.accepted_invalid", "Reweight(%v) returned no error", bad)
+			return
+		}
+	}
 	if r.P(0.7) {
 		// queried before the call (reads reorganise stores; what they leave behind must not outlive the reweighting)
 		c.Guard("query before Reweight", func() { mon.Observe(st.s, nil) })
 		c.Count("reweight.after_a_query", 1)
 	}
+	before = statsOf(st.mdl.Items)
 	if !st.apply(skOp{kind: opReweight, w: f}) {
 		return
 	}
@@ -871,6 +913,9 @@ func runC16(c *core.Ctx) {
 			return
 		}
 		c.Count("oracle.continued_after_reweight", 1)
+		if exact {
+			checkExactStats(c, st)
+		}
 		got := mon.Observe(st.s, nil)
 		want := mon.Observe(twin, nil)
 		got.HasSum, want.HasSum = false, false
